@@ -67,6 +67,7 @@ OPS = ["sig", "isd", "isd_cached", "seq"]
 
 class CacheHarness(Harness):
   name = "c14_cache"
+  quick_only_for = ("C18",)   # the deep tier runs under the harness's own property; the C18 roll-up reuses the quick partitions
   thorough_only_for = ("C18",)   # many paths, no reader/writer involved: C18 quick tier skips it
   properties = ("C14", "C18")
   functions = ("isd:ISD.from_model", "isd:ISD.significant_times", "isd:ISD.generate_isd_sequence",
